@@ -2,6 +2,9 @@
 """Regenerates MANIFEST.json from the table below (kept in one place so it stays valid)."""
 import json, subprocess
 CHECKS = {
+ "C20": dict(level="exploration", tech="differential monitor: install-time definition (real add_node, captured by the simulated OS) vs upgrade-time definition (real build_upgrade_install_context on the recorded data), both interpreted by the real antnode binary of the working tree through the guarded option-dump hook",
+             text="Random combinations of all installable options; definitions compared field by field, both argument lists must be accepted by the real clap parser with identical parsed options, and every parsed field must equal the intended configuration.",
+             note="antnode is rebuilt from /repo with --features verif-hooks on every run; combinations are sampled (not exhaustive); cmd::node::upgrade itself is out of reach offline.", ref="DESIGN.md §4 C20"),
  "C19": dict(level="fault_enumeration", tech="fault enumeration over a simulated OS/RPC (ServiceControl / RpcActions implementations with a per-call fault plan) driving the real add_node, ServiceManager, refresh_node_registry and NodeRegistry save/load; state oracle after every operation",
              text="For every sampled operation sequence the fault-free run counts the N control/RPC calls; every single fault placement (and 'start succeeds but the process dies') is executed, in thorough also every pair (complete for N <= 16). After each operation of each run the registry is compared with the simulated process table.",
              note="SimOs/SimRpc model a well-behaved service manager plus injected failures; sequences are sampled, fault placements per sequence are enumerated; three signatures of one structural defect are known findings.", ref="DESIGN.md §4 C19"),
